@@ -455,7 +455,14 @@ Section WS.
       let phase1 : world * res bool :=
         match rename (w_fs w) fname tmp with
         | FErr ENOENT => (w, inl false)
-        | FErr e => (w, inr (FOs e))
+        | FErr e =>
+            (* fix 8529336: nothing was moved; the in-memory data is reloaded from the file (if it loads) *)
+            (match get (w_fs w) fname with
+             | Some (File cf) => match c_json cf with
+                                 | Some v => set_C w ci (mkC (snd (upd_root (c_data c) v)) (c_jobs c))
+                                 | None => w end
+             | _ => w
+             end, inr (FOs e))
         | FOk f1 =>
             let w1 := set_fs w f1 [EvRename fname tmp] in
             match rename f1 (wsd ++ [old_id]) (wsd ++ [new_id]) with
@@ -535,7 +542,8 @@ Section WS.
     if lock_has w1 (cell_file w1 ci) then
       match cell_reset w1 ci new with
       | (w2, inr e) => (w2, inr e)
-      | (w2, inl _) => let h2 := getH w2 hi in (register w2 (h_s h2) (h_id h2) new, inl tt)
+      (* fix 64999d6: _register(self.id, self.statepoint()) - the merged in-memory data, not the caller's object *)
+      | (w2, inl _) => let h2 := getH w2 hi in (register w2 (h_s h2) (h_id h2) (c_data (getC w2 ci)), inl tt)
       end
     else
       (* reset(): _update has already merged the new data in memory when _thread_lock raises KeyError *)
@@ -607,17 +615,20 @@ Section WS.
   Definition add_job (w : world) (ci hj : nat) : world :=
     let c := getC w ci in set_C w ci (mkC (c_data c) (c_jobs c ++ [hj])).
 
-  (* copy.copy(job): __setstate__ shares __dict__ (hence the cell, if it exists) and appends itself *)
+  (* copy.copy(job): __getstate__ first instantiates the state point of the ORIGINAL (fix 0894ce6; for a handle
+     opened by id with a cache miss this loads and validates the file, and may raise before any copy exists);
+     __setstate__ then shares __dict__ (hence the cell and the document object) and appends itself to _jobs *)
   Definition copy_handle (w : world) (hi : nat) : world * res nat :=
-    let hj := length (w_hs w) in
-    let w1 := set_HD (add_H w (getH w hi)) hj (getHD w hi) in
-    match sp_access w1 hj with
-    | (_, inr e) => (w, inr e)
-    | (w2, inl ci) => (add_job w2 ci hj, inl hj)
+    match sp_access w hi with
+    | (w1, inr e) => (w1, inr e)
+    | (w1, inl ci) =>
+        let hj := length (w_hs w1) in
+        let w2 := set_HD (add_H w1 (getH w1 hi)) hj (getHD w1 hi) in
+        (add_job w2 ci hj, inl hj)
     end.
 
   (* copy.deepcopy(job) / pickle round trip: own project object, own cell *)
-  Definition deep_handle (pickle : bool) (w : world) (hi : nat) : world * res nat :=
+  Definition deep_handle0 (pickle : bool) (w : world) (hi : nat) : world * res nat :=
     let h := getH w hi in
     let hj := length (w_hs w) in
     let sj := length (w_ss w) in
@@ -638,6 +649,16 @@ Section WS.
       | (w4, inl ci) => (add_job w4 ci hj, inl hj)
       end
     else (w3, inl hj).
+
+  (* pickle.dumps(job) goes through __getstate__ (state point of the original instantiated first, fix 0894ce6);
+     copy.deepcopy uses __deepcopy__, which does not *)
+  Definition deep_handle (pickle : bool) (w : world) (hi : nat) : world * res nat :=
+    if pickle then
+      match sp_access w hi with
+      | (w1, inr e) => (w1, inr e)
+      | (w1, inl _) => deep_handle0 true w1 hi
+      end
+    else deep_handle0 false w hi.
 
   (* Job.move(project) *)
   Definition move (w : world) (hi sj : nat) : world * res unit :=
